@@ -401,11 +401,26 @@ func (a *attempt) backlogBurst(r scenRound) {
 		}
 	}
 	c := netCfg{Kind: "backlog-burst", Hold: isLagger}
+	// the last height the others finish without the laggers: the first one
+	// from base+k on whose successor has no lagger for a primary. The height
+	// before it is settled at view 1 (its view-0 proposal is lost): what the
+	// laggers keep of it is a change of view plus a round, the longest thing
+	// their consensus loop will have to replay.
+	last := base + k
+	for isLagger[int(last+1)%n] {
+		last++
+	}
 	var top uint32
-	if !a.faultStep(c, func() bool {
-		top = maxU32(cl.heights())
-		return top >= base+k && !isLagger[int(top+1)%n]
-	}, time.Duration(40+10*n)*blockTime) {
+	reach := func(h uint32) func() bool {
+		return func() bool { top = maxU32(cl.heights()); return top >= h }
+	}
+	ok := a.faultStep(c, reach(last-2), time.Duration(40+10*n)*blockTime)
+	if ok {
+		c2 := c
+		c2.Rules = []lossRule{{Types: []string{"PrepareRequest", "RecoveryMessage"}, ViewMin: 0, ViewMax: 0, Pct: 100}}
+		ok = a.faultStep(c2, reach(last-1), 30*blockTime)
+	}
+	if !ok || !a.faultStep(c, reach(last), 30*blockTime) || top != last {
 		a.net.count("backlog_rounds_not_set_up", 1)
 		return
 	}
@@ -510,7 +525,15 @@ func (a *attempt) epochBurst(r scenRound) {
 	// its last block and the small set opens its first height: the proposal
 	// and the one response the others can give are less than M
 	c := netCfg{Kind: "epoch-burst", Hold: isLagger}
-	if !a.faultStep(c, func() bool { return nextVals() == nv }, time.Duration(k)*12*blockTime) {
+	// as in backlogBurst the height before the last one of the big set is
+	// settled at view 1 (the switch comes right after SwitchAt-1 or SwitchAt)
+	ok := a.faultStep(c, func() bool { return maxU32(cl.heights()) >= cfg.SwitchAt-2 }, time.Duration(k)*12*blockTime)
+	if ok && nextVals() == cfg.N {
+		c2 := c
+		c2.Rules = []lossRule{{Types: []string{"PrepareRequest", "RecoveryMessage"}, ViewMin: 0, ViewMax: 0, Pct: 100}}
+		ok = a.faultStep(c2, func() bool { return maxU32(cl.heights()) >= cfg.SwitchAt-1 }, 30*blockTime)
+	}
+	if !ok || !a.faultStep(c, func() bool { return nextVals() == nv }, 30*blockTime) {
 		a.net.count("epoch_burst_not_set_up", 1)
 		return
 	}
